@@ -7,7 +7,6 @@
 package chainw
 
 import (
-	"testing"
 	"bytes"
 	"context"
 	"crypto/sha256"
@@ -15,6 +14,8 @@ import (
 	"math/big"
 	"os"
 	"sort"
+	"strings"
+	"testing"
 	"time"
 
 	"github.com/aergoio/aergo/v2/config"
@@ -78,6 +79,13 @@ type env struct {
 	genesis string
 	txOn    map[string][]int // tx hash -> labels of honest blocks containing it
 	dead    bool
+	// C06
+	delivered       map[int]bool
+	crashDeliveries int
+	tornMode        int // 0 none, 1 one torn prefix per bulk unit, 2 every torn prefix (capped)
+	secondCrash     int // 1: also crash once inside the recovery of each trial
+	children        map[int]*types.Block
+	reseedBulk      func(tag int)
 }
 
 func hdrDigest(b *types.Block) []byte {
@@ -187,7 +195,7 @@ func (e *env) modelDeliver(l int) {
 
 func (w *World) Run(x *simkit.Ctx) {
 	prop := x.Case.Prop
-	e := &env{x: x, prop: prop, byAnn: map[string]int{}, stored: map[string]bool{}, orph: map[string]int{}, best: -1, txOn: map[string][]int{}}
+	e := &env{x: x, prop: prop, byAnn: map[string]int{}, stored: map[string]bool{}, orph: map[string]int{}, best: -1, txOn: map[string][]int{}, delivered: map[int]bool{}}
 	nacc := x.CfgInt("accounts", func(r *simkit.Rng) int { return r.Range(2, 5) })
 	nsteps := x.CfgInt("steps", func(r *simkit.Rng) int {
 		if x.Case.Tier == "thorough" {
@@ -217,11 +225,33 @@ func (w *World) Run(x *simkit.Ctx) {
 	e.net = net
 	e.nut = net.AddNode(-1, nil, "permissive")
 	e.nut.Disk.BulkChunk = chunk
+	// Only state-store bulks (trie nodes + account states of a block, in Go map order, unbounded
+	// size) are split into several durable units and torn. The chain store's bulks hold a handful
+	// of entries in program order; the real backend (badger WriteBatch) commits such a batch as one
+	// transaction, so splitting them would inject a fault real disks cannot produce.
+	e.nut.Disk.ChunkStore = "state"
 	e.nut.DeferHandBack = true
 	e.genesis = string(e.nut.Best().BlockHash())
 	e.stored[e.genesis] = true
 	e.addBuilder(-1)
 
+	maxCrashDeliv := x.CfgInt("crashdeliveries", func(r *simkit.Rng) int {
+		if x.Case.Tier == "thorough" {
+			return r.Range(2, 6)
+		}
+		return r.Range(1, 3)
+	})
+	crashPct := x.CfgInt("crashpct", func(r *simkit.Rng) int { return []int{15, 30, 60}[r.Intn(3)] })
+	e.tornMode = x.CfgInt("torn", func(r *simkit.Rng) int { return r.Intn(3) })
+	e.secondCrash = x.CfgInt("crash2", func(r *simkit.Rng) int { return r.Pick(2, 1) })
+	permSeed := x.CfgInt("bulkperm", func(r *simkit.Rng) int { return int(r.U64() >> 34) })
+	// the permutation stream restarts at every step and every crash trial, so that what one step
+	// does never depends on how many bulks earlier steps (which the shrinker may delete) flushed
+	e.reseedBulk = func(tag int) {
+		bulkRng := simkit.NewRng(simkit.Mix(uint64(permSeed), uint64(tag)))
+		e.nut.Disk.PermBulkStore = simdisk.CanonStateBulk(func(n int) []int { return bulkRng.Perm(n) })
+	}
+	e.reseedBulk(0)
 	gen := func(r *simkit.Rng) *simkit.Step {
 		if len(x.Case.Steps) >= nsteps || e.dead {
 			return nil
@@ -242,8 +272,26 @@ func (w *World) Run(x *simkit.Ctx) {
 			if nblk == 0 {
 				return &simkit.Step{Op: "build", A: r.Intn(nb)}
 			}
-			// bias towards blocks not yet delivered
-			return &simkit.Step{Op: "deliver", A: r.Intn(nblk), B: r.Intn(3)}
+			// bias towards blocks not yet delivered (lowest such label half of the time: progress)
+			a := r.Intn(nblk)
+			if r.Chance(6, 10) {
+				var und []int
+				for i := range e.blocks {
+					if !e.delivered[i] {
+						und = append(und, i)
+					}
+				}
+				if len(und) > 0 {
+					a = und[r.Intn(len(und))]
+					if r.Bool() {
+						a = und[0]
+					}
+				}
+			}
+			if prop == "C06" && e.crashDeliveries < maxCrashDeliv && r.Chance(crashPct, 100) {
+				return &simkit.Step{Op: "cdeliver", A: a, B: -1}
+			}
+			return &simkit.Step{Op: "deliver", A: a, B: r.Intn(3)}
 		case 4:
 			if nblk == 0 {
 				return &simkit.Step{Op: "build", A: r.Intn(nb)}
@@ -261,6 +309,7 @@ func (w *World) Run(x *simkit.Ctx) {
 			break
 		}
 		e.step = idx
+		e.reseedBulk(0)
 		switch st.Op {
 		case "tx":
 			e.doTx(st)
@@ -270,6 +319,8 @@ func (w *World) Run(x *simkit.Ctx) {
 			e.doBranch(st.A)
 		case "deliver":
 			e.doDeliver(st.A)
+		case "cdeliver":
+			e.doCrashDeliver(st)
 		case "forge":
 			e.doForge(st.A, st.B, st.C)
 		case "restart":
@@ -483,11 +534,11 @@ func (e *env) propOr(p string) string {
 
 type obs struct {
 	orphans int
-	best   string
-	root   string
-	height uint64
-	nkeys  int
-	digest string
+	best    string
+	root    string
+	height  uint64
+	nkeys   int
+	digest  string
 }
 
 // observe is the node's C05 observation vector: best block, state root, and a digest of
@@ -516,6 +567,7 @@ func (e *env) doDeliver(l int) {
 		return
 	}
 	b := e.blocks[l]
+	e.delivered[l] = true
 	simclock.Set(e.net.Start.Add(time.Duration(e.slot+3) * time.Second))
 	before := e.observe()
 	oldBest := e.best
@@ -849,7 +901,277 @@ func (e *env) finalChecks() {
 	}
 }
 
-var _ = simdisk.Impl
+// ---------------------------------------------------------------------------------------------
+// C06: crash at every durable write unit of one delivery.
+
+// doCrashDeliver first performs the delivery fault-free (with every check of doDeliver) while the
+// disk journals its durable write units, then, for every prefix of that journal (and torn prefixes
+// of bulk units), rebuilds the disk as a crash would leave it, restarts the node through the
+// production start-up + recovery path and checks what C06 states.
+func (e *env) doCrashDeliver(st *simkit.Step) {
+	x := e.x
+	l := st.A
+	if l < 0 || l >= len(e.blocks) {
+		x.Noop()
+		return
+	}
+	disk := e.nut.Disk
+	e.flushHandBack()
+	preBest := e.best
+	disk.Checkpoint()
+	e.doDeliver(l)
+	if x.Failed() || e.dead {
+		return
+	}
+	e.crashDeliveries++
+	units := disk.Units()
+	post := disk.Snapshot()
+	postBest := e.best
+	want := e.observe()
+	x.Count("crash-deliveries", 1)
+	x.Count("crash-units", int64(units))
+	if units == 0 {
+		x.Probe("crash-delivery-without-writes")
+		return
+	}
+	// legitimately reachable tips
+	allowed := map[string]bool{e.idOf(preBest): true, e.idOf(postBest): true}
+	pp, qp := e.path(preBest), e.path(postBest)
+	extends := len(qp) >= len(pp)
+	for i := range pp {
+		if !extends || qp[i] != pp[i] {
+			extends = false
+			break
+		}
+	}
+	kind := "connect"
+	if postBest == preBest {
+		kind = "no-tip-change"
+	} else if extends {
+		for _, m := range qp[len(pp):] {
+			allowed[e.idOf(m)] = true
+		}
+		if len(qp)-len(pp) > 1 {
+			kind = "orphan-chain"
+		}
+	} else {
+		kind = "reorg"
+	}
+	x.Probe("crash-scan-" + kind)
+	ks := []int{}
+	if st.B >= 0 {
+		ks = append(ks, st.B)
+	} else {
+		for k := 0; k < units; k++ {
+			ks = append(ks, k)
+		}
+	}
+	for _, k := range ks {
+		if k >= units {
+			x.Noop()
+			continue
+		}
+		torns := []int{0}
+		if store, ukind, nops := journalUnit(post, disk, k); ukind == "bulk" && nops > 1 && e.tornMode > 0 && store == "state" {
+			if st.B >= 0 {
+				torns = []int{st.C}
+			} else if e.tornMode == 1 {
+				torns = append(torns, 1+(k*7)%(nops-1))
+			} else {
+				for t := 1; t < nops && t <= 6; t++ {
+					torns = append(torns, t)
+				}
+			}
+		} else if st.B >= 0 && st.C > 0 {
+			torns = []int{0}
+		}
+		for _, t := range torns {
+			e.crashTrial(post, k, t, kind, allowed, postBest, want)
+			if x.Failed() {
+				if x.Generating() {
+					st.B, st.C = k, t
+				}
+				return
+			}
+		}
+	}
+	// back to the fault-free outcome
+	e.nut.Stop()
+	disk.Restore(post)
+	e.nut.Boot()
+	if err := e.nut.Recover(); err != nil {
+		panic("recovery of the fault-free state failed: " + err.Error())
+	}
+	e.orph = map[string]int{}
+}
+
+func journalUnit(post *simdisk.Snap, d *simdisk.Disk, k int) (string, string, int) {
+	return post.UnitAt(k)
+}
+
+func (e *env) bootRecover() (string, error) {
+	var err error
+	p := catch(func() {
+		e.nut.Boot()
+		err = e.nut.Recover()
+	})
+	return p, err
+}
+
+func (e *env) crashTrial(post *simdisk.Snap, k, torn int, kind string, allowed map[string]bool, postBest int, want obs) {
+	x := e.x
+	n := e.nut
+	disk := n.Disk
+	n.Stop()
+	disk.Restore(post)
+	e.reseedBulk(1 + k*64 + torn)
+	store, ukind, _ := disk.UnitAt(k)
+	disk.RebuildAt(k, torn)
+	x.Fault("crash-" + kind + "-" + store + "-" + ukind)
+	if torn > 0 {
+		x.Fault("torn-bulk")
+	}
+	sig := kind + "/" + store + "-" + ukind
+	ps, pk, pn := post.UnitAt(k)
+	x.Logf("crash trial k=%d torn=%d %s (snapshot says %s-%s/%d, journal %d/%d)", k, torn, sig, ps, pk, pn, post.JournalLen(), disk.Units())
+	atCrash := disk.Snapshot()
+	p, err := e.bootRecover()
+	if p != "" || err != nil {
+		x.Fail("C06", "recovery-failed", sig, fmt.Sprintf("crash before write unit %d (torn %d) of a %s: restart/recovery failed: %v %s", k, torn, kind, err, p), e.step)
+		return
+	}
+	recUnits := disk.Units() - len(atCrashJournal(atCrash))
+	if recUnits > 0 {
+		x.Probe("recovery-wrote-to-disk")
+	}
+	if e.secondCrash == 1 && recUnits > 0 {
+		// die once more, inside the recovery, then recover again
+		j := (k*31 + torn*7) % recUnits
+		x.Logf("second crash: recovery wrote %d units, dying at its unit %d (journal %d)", recUnits, j, disk.Units())
+		n.Stop()
+		disk.Restore(atCrash)
+		disk.Arm(disk.Units()+j, 0)
+		p, err = e.bootRecover()
+		disk.Disarm()
+		if !strings.Contains(p, "simulated crash") {
+			// the armed unit was not reached (recovery took another path): fine, state is recovered
+			if p != "" || err != nil {
+				x.Fail("C06", "recovery-failed", sig+"/second", fmt.Sprintf("second recovery failed: %v %s", err, p), e.step)
+				return
+			}
+		} else {
+			x.Fault("crash-inside-recovery")
+			n.Stop()
+			p, err = e.bootRecover()
+			if p != "" || err != nil {
+				x.Fail("C06", "recovery-failed", sig+"/after-crash-in-recovery", fmt.Sprintf("crash before unit %d of a %s, then crash at recovery unit %d: recovery failed: %v %s", k, kind, j, err, p), e.step)
+				return
+			}
+		}
+	}
+	// coherent state
+	savedProp := e.prop
+	e.prop = "C06"
+	e.checkInvariants("after-crash/" + sig)
+	e.prop = savedProp
+	if x.Failed() {
+		return
+	}
+	got := string(hdrDigest(n.Best()))
+	if !allowed[got] {
+		x.Fail("C06", "illegitimate-best-after-crash", sig, fmt.Sprintf("crash before write unit %d (torn %d) of a %s: recovered best (height %d) is neither the old tip, the new tip nor a tip the node passes through", k, torn, kind, n.Best().BlockNo()), e.step)
+		return
+	}
+	if got == e.idOf(postBest) {
+		x.Count("crash-recovered-to-new-tip", 1)
+	} else {
+		x.Count("crash-recovered-to-older-tip", 1)
+	}
+	// feeding the same blocks again reaches the fault-free final state
+	simclock.Set(e.net.Start.Add(time.Duration(e.slot+3) * time.Second))
+	for _, m := range e.path(postBest) {
+		pan := catch(func() { _ = n.AddBlock(e.blocks[m].b, "peer") })
+		if pan != "" {
+			x.Fail("C06", "node-died-after-recovery", sig, fmt.Sprintf("re-feeding block %d after recovery killed the node: %s", m, pan), e.step)
+			return
+		}
+	}
+	n.HandBack = nil
+	after := e.observe()
+	if (after.best != want.best || after.root != want.root) && e.allStored(postBest) && after.best != want.best {
+		// Every block of the fault-free main chain is in the chain DB, yet the node sits on the older
+		// tip: the process died after storing the side-branch blocks and before switching to them, and
+		// a re-delivered block that is already stored is ignored ("already connected"). Recorded as a
+		// known finding (DESIGN.md section 7); what is still required is that the next block of that
+		// branch makes the node converge.
+		if !x.FailKnownOrStop("C06", "refeed-does-not-converge", "side-branch-stored-before-switch",
+			fmt.Sprintf("crash before write unit %d (torn %d) of a %s: every block of the longer branch is stored, re-feeding them is ignored and the node stays at height %d (fault-free run: height %d)", k, torn, kind, after.height, want.height), e.step) {
+			return
+		}
+		child := e.childOf(postBest)
+		pan := catch(func() { _ = n.AddBlock(child, "peer") })
+		if pan != "" {
+			x.Fail("C06", "node-died-after-recovery", sig, fmt.Sprintf("delivering the next block after recovery killed the node: %s", pan), e.step)
+			return
+		}
+		n.HandBack = nil
+		if string(hdrDigest(n.Best())) != string(hdrDigest(child)) || !bytes.Equal(n.CS.SDB().GetRoot(), child.GetHeader().GetBlocksRootHash()) {
+			x.Fail("C06", "refeed-does-not-converge", sig+"/even-with-next-block", fmt.Sprintf("crash before write unit %d (torn %d) of a %s: even the next block of the longer branch does not bring the node to it (height %d)", k, torn, kind, n.Best().BlockNo()), e.step)
+			return
+		}
+		e.prop = "C06"
+		e.checkInvariants("after-refeed+next/" + sig)
+		e.prop = savedProp
+		x.Probe("converged-with-next-block")
+		return
+	}
+	if after.best != want.best || after.root != want.root {
+		x.Fail("C06", "refeed-does-not-converge", sig, fmt.Sprintf("crash before write unit %d (torn %d) of a %s: after recovery and re-feeding the same blocks the node is at height %d (fault-free run: height %d), state root equal=%v", k, torn, kind, after.height, want.height, after.root == want.root), e.step)
+		return
+	}
+	e.prop = "C06"
+	e.checkInvariants("after-refeed/" + sig)
+	e.prop = savedProp
+	x.Digest("C06", kind, store, ukind, got == e.idOf(postBest), torn > 0)
+}
+
+// allStored reports whether every block on the model's path to l is readable from the node's chain DB.
+func (e *env) allStored(l int) bool {
+	for _, m := range e.path(l) {
+		if _, err := e.nut.CS.GetBlock([]byte(e.blocks[m].trueID)); err != nil {
+			return false
+		}
+	}
+	return true
+}
+
+// childOf builds (once) an honest block on top of label l with a throw-away producer node.
+func (e *env) childOf(l int) *types.Block {
+	if b, ok := e.children[l]; ok {
+		return b
+	}
+	tmp := e.net.AddNode(0, nil, "permissive")
+	for _, m := range e.path(l) {
+		if err := tmp.AddBlock(e.blocks[m].b, "src"); err != nil {
+			panic(fmt.Sprintf("throw-away producer rejects the main chain at label %d: %v", m, err))
+		}
+	}
+	e.slot++
+	ts := e.net.Start.Add(time.Duration(e.slot) * time.Second).Add(100 * time.Millisecond)
+	simclock.Set(ts.Add(50 * time.Millisecond))
+	blk, gerr, aerr := tmp.Produce(context.Background(), ts)
+	if gerr != nil || aerr != nil {
+		panic(fmt.Sprintf("throw-away producer failed to build: %v %v", gerr, aerr))
+	}
+	tmp.Stop()
+	if e.children == nil {
+		e.children = map[int]*types.Block{}
+	}
+	e.children[l] = simnode.CloneBlock(blk)
+	return e.children[l]
+}
+
+func atCrashJournal(s *simdisk.Snap) []struct{} { return make([]struct{}, s.JournalLen()) }
 
 func init() {
 	simkit.Register("chain", func(scratch string, t *testing.T) simkit.World { return &World{Scratch: scratch} })
